@@ -6,6 +6,7 @@ import (
 
 	"github.com/256dpi/lungo/bsonkit"
 	"github.com/256dpi/lungo/internal/vf"
+	"github.com/256dpi/lungo/mongokit"
 )
 
 // One inductive step: canonical state -> one symbolic write -> assertions selected by "prop".
@@ -128,6 +129,25 @@ func H_STEP() {
 	if prop&pC15 != 0 {
 		coherent(after, "after the write")
 	}
+	if prop&pC02 != 0 && out.kind == opInsertMany && out.err == nil {
+		// exactly the items that individually succeed take effect: a prefix when ordered, every valid
+		// item when unordered; a failing item contributes nothing
+		modelDocs := append(bsonkit.List{}, beforeDocs...)
+		taken := 0
+		for _, it := range out.items {
+			if hasDuplicate(append(append(bsonkit.List{}, modelDocs...), it), idx) {
+				if out.ordered {
+					break
+				}
+				continue
+			}
+			modelDocs = append(modelDocs, it)
+			taken++
+		}
+		vf.Assert(len(afterDocs) == len(beforeDocs)+taken, "insert-many stored a different number of documents than the items that individually succeed")
+		vf.Assert((out.res.Error != nil) == (taken < len(out.items)), "insert-many reports an error although every item succeeded, or none although one failed")
+		vf.Assert(len(afterLog) == len(beforeLog)+taken, "insert-many logged a different number of events than documents stored")
+	}
 	if prop&pC02 != 0 && out.err != nil {
 		vf.Assert(after == before, "a failed write replaced the catalog")
 		vf.Assert(txn.Dirty() == dirtyBefore, "a failed write changed the dirty flag")
@@ -143,6 +163,28 @@ func H_STEP() {
 			// exactness: a write is rejected for uniqueness only if it would create a duplicate
 			if uniq && out.kind == opInsert && out.inserted != nil {
 				vf.Assert(hasDuplicate(append(append(bsonkit.List{}, beforeDocs...), out.inserted), idx), "an insert that creates no duplicate key was rejected with a uniqueness error")
+			}
+			if uniq && (out.kind == opUpdateOne || out.kind == opUpdateMany) {
+				// model: apply the update to (clones of) the matching documents
+				var post bsonkit.List
+				hit := 0
+				modelOK := true
+				for _, d := range beforeDocs {
+					m, err := mongokit.Match(d, out.q)
+					if err == nil && m && (out.kind == opUpdateMany || hit == 0) {
+						hit++
+						c := bsonkit.Clone(d)
+						if _, err := mongokit.Apply(c, out.q, out.u, false, nil); err != nil {
+							modelOK = false
+						}
+						post = append(post, c)
+					} else {
+						post = append(post, d)
+					}
+				}
+				if modelOK {
+					vf.Assert(hasDuplicate(post, idx), "an update that creates no duplicate key was rejected with a uniqueness error")
+				}
 			}
 		}
 	}
